@@ -1,1 +1,196 @@
+(* P_C14.v — property C14: static reference analysis finds every named dependency.
+   Statements only; proofs are in proofs/Extract_proofs.v.
+   Models: model/Tree.v (lark trees, the grammar of cel.lark), model/Extract.v
+   (structure_extractor.py, the dependency / ordering / watch-list logic of
+   workflow/prepare.py, the steps_ready gate of workflow/reconcile.py, the watch lists of
+   resource_function/prepare.py and function_test/prepare.py). *)
 From Koreo Require Import Tree Extract Extract_proofs.
+Local Open Scope string_scope.
+Local Open Scope list_scope.
+Local Open Scope nat_scope.
+
+(* ---------------------------------------------------------------------------
+   "For every expression in a definition, each statically named reference to a prior step
+   (steps.NAME or steps['NAME'], at any depth, inside macros, calls or literals) is
+   recorded as a dependency of that step"                                                  *)
+
+(* the extractor returns a set and raises nothing on every tree of the CEL grammar
+   (any syntactic shape) - also the extractor part of C20 *)
+Theorem C14_extract_total : forall t, cel_tree_wf t = true -> exists S, extract t = Done S.
+Proof. exact extract_total. Qed.
+
+(* [occurs_steps_ref name t]: somewhere in t (any depth, any context) there is the node
+   steps.name, or steps['name'] / steps["name"] / the triple-quoted forms with a plain
+   string literal.  [needed_steps S]: the names STEPS_NAME_PATTERN derives from the keys S,
+   exactly as _load_step does.  [name_ok]: non-empty, no '.', no '['. *)
+Theorem C14_steps_ref_found : forall t name,
+  cel_tree_wf t = true -> name_ok name = true -> occurs_steps_ref name t ->
+  exists S, extract t = Done S /\ In (Some name) (needed_steps S).
+Proof. exact steps_ref_found. Qed.
+
+(* the same without any assumption on the tree: whenever the extractor returns, nothing is missed *)
+Theorem C14_steps_ref_in_result : forall t S name,
+  extract t = Done S -> name_ok name = true -> occurs_steps_ref name t ->
+  In (Some name) (needed_steps S).
+Proof. exact steps_ref_in_result. Qed.
+
+(* every valid step label ([[:word:]]+ in the CRD) is covered in every written form,
+   with no side condition *)
+Theorem C14_label_forms : forall name, label_ok name = true ->
+  name_ok name = true /\
+  direct_ref name (N "member_dot" [steps_member; Tok "IDENT" name]) /\
+  forall q, q = "'"%char \/ q = """"%char ->
+    direct_ref name (N "member_index" [steps_member; lit_expr "STRING_LIT" (quote1 q +++ name +++ quote1 q)]) /\
+    direct_ref name (N "member_index" [steps_member; lit_expr "MLSTRING_LIT" (quote3 q +++ name +++ quote3 q)]).
+Proof. exact label_forms. Qed.
+
+(* which names the regular expression covers: exactly those without '.' and '[' (and not empty);
+   longer access paths on the same step give the same name *)
+Theorem C14_regex_exact : forall name,
+  steps_name ("steps." +++ name) = Some (Some name) <-> name_ok name = true.
+Proof. exact steps_name_exact. Qed.
+
+Theorem C14_regex_path : forall name rest, name_ok name = true ->
+  steps_name ("steps." +++ name +++ "." +++ rest) = Some (Some name).
+Proof. exact steps_name_path. Qed.
+
+(* workflow level: in a Workflow reported ready every step was prepared as a Step whose
+   dependency set contains every statically named reference of each of its expressions
+   (refSwitch.switchOn, skipIf, forEach.itemIn, inputs, state) and holds only labels of
+   EARLIER steps (so reconcile's task_map[dependency] lookup always succeeds) *)
+Theorem C14_ready_deps_complete_and_earlier : forall steps w pre st post,
+  prepare_workflow steps = Done w -> pw_ready w = COk -> steps = pre ++ st :: post ->
+  exists deps,
+    nth_error (pw_steps w) (List.length pre) = Some (SStep (st_label st) deps) /\
+    (forall t name, In t (step_trees st) -> name_ok name = true -> occurs_steps_ref name t -> In name deps) /\
+    (forall d, In d deps -> In d (map st_label pre)).
+Proof. exact ready_deps_complete_and_earlier. Qed.
+
+(* ---------------------------------------------------------------------------
+   "a Workflow in which a step names a later, unknown or its own label is reported not
+   ready instead of being run"                                                              *)
+
+(* [~ In name (map st_label pre)]: name is not the label of an earlier step, i.e. it is a
+   later label, the step's own label, or no label at all *)
+Theorem C14_bad_order_rejected : forall steps w pre st post t name,
+  prepare_workflow steps = Done w -> steps = pre ++ st :: post ->
+  In t (step_trees st) -> name_ok name = true -> occurs_steps_ref name t ->
+  ~ In name (map st_label pre) ->
+  pw_ready w <> COk.
+Proof. exact bad_order_rejected. Qed.
+
+Theorem C14_duplicate_label_rejected : forall steps w pre st post,
+  prepare_workflow steps = Done w -> steps = pre ++ st :: post ->
+  In (st_label st) (map st_label pre) -> pw_ready w <> COk.
+Proof. exact duplicate_label_rejected. Qed.
+
+(* reconcile_workflow starts no step of a Workflow that is not ready *)
+Theorem C14_not_ready_runs_nothing : forall w, pw_ready w <> COk -> started_steps w = [].
+Proof. exact not_ready_runs_nothing. Qed.
+
+(* prepare_workflow returns for every Workflow whose expressions come from the CEL grammar,
+   except for one exception class ... *)
+Theorem C14_prepare_raises_only_type_error : forall steps e,
+  Forall (fun st => trees_wf (step_trees st)) steps ->
+  prepare_workflow steps = Raised e -> e = ETypeError.
+Proof. exact prepare_workflow_raises_only. Qed.
+
+(* ... which does occur on the unchanged code (GENUINE DEFECT, see notes/C14.md): a key that
+   matches STEPS_NAME_PATTERN without a name (`stepsX.foo`, `steps['.a']`, `steps['[a']`)
+   puts None into needed_steps and the ', '.join of the error message raises TypeError out
+   of prepare_workflow - the unknown label is neither reported nor is a Workflow returned *)
+Theorem C14_prepare_total_refuted :
+  exists steps, Forall (fun st => Forall (fun t => cel_expr_wf t = true) (step_trees st)) steps /\
+                prepare_workflow steps = Raised ETypeError.
+Proof. exact prepare_workflow_total_refuted. Qed.
+
+Theorem C14_unknown_label_reported_refuted :
+  exists steps st t, steps = [st] /\ In t (step_trees st) /\ cel_expr_wf t = true /\
+    occurs_steps_ref ".a" t /\ prepare_workflow steps = Raised ETypeError.
+Proof. exact unknown_label_reported_refuted. Qed.
+
+(* ---------------------------------------------------------------------------
+   "Every Function or Workflow a definition names (step Logic including every refSwitch
+   case, overlay functions, a FunctionTest's function under test) is reported as watched"   *)
+
+(* [names_logic st r]: r is the step's ref, or a case of its refSwitch (switchOn compiles, at
+   most one default case), with a valid kind and a non-empty name - whether or not the cache
+   holds it.  The step's label must not repeat an earlier one (such a step is rejected
+   before its Logic is looked at). *)
+Theorem C14_watched_complete_workflow : forall steps w pre st post r,
+  prepare_workflow steps = Done w -> steps = pre ++ st :: post ->
+  ~ In (st_label st) (map st_label pre) ->
+  names_logic st r -> In r (pw_watched w).
+Proof. exact watched_complete_workflow. Qed.
+
+(* straight-line models, tied to the code by the correspondence check only *)
+Theorem C14_watched_complete_rf : forall ovs W o name,
+  rf_watched true ovs = Some W -> In o ovs -> ov_skip_if o <> FFail -> ov_body o = ORef name ->
+  In name W.
+Proof. exact watched_complete_rf. Qed.
+
+Theorem C14_watched_complete_ft : forall kind name,
+  (kind = "ValueFunction" \/ kind = "ResourceFunction") -> name <> "" ->
+  ft_watched_head kind name true true = Some (kind, name).
+Proof. exact ft_watched_some. Qed.
+
+(* ---------------------------------------------------------------------------
+   non-vacuity: the parse tree (as built by the real celpy) of
+     has(steps.aaa.b) ? [steps['bbb'], x.f().y] : {'k': inputs.l[size(inputs.l) - 1].map(i, i + steps.d_2.n)}
+   is a grammar tree; it holds references to aaa, bbb and d_2 at depth (call argument,
+   list literal under a conditional, macro body inside a map literal); a receiver the
+   extractor cannot turn into a path (x.f().y, l[size(l) - 1]) is skipped without harm *)
+Definition ex_tree : node := Eval cbv [ch chain levels skipn firstn Nat.sub fold_right] in
+  (N "expr" [(ch 1 8 (N "ident_arg" [(Tok "IDENT" "has"); (N "exprlist" [(ch 0 7 (N "member_dot" [(N "member" [(N "member_dot" [(N "member" [(N "primary" [(N "ident" [(Tok "IDENT" "steps")])])]); (Tok "IDENT" "aaa")])]); (Tok "IDENT" "b")]))])])); (ch 1 8 (N "list_lit" [(N "exprlist" [(ch 0 7 (N "member_index" [(N "member" [(N "primary" [(N "ident" [(Tok "IDENT" "steps")])])]); (ch 0 8 (N "literal" [(Tok "STRING_LIT" "'bbb'")]))])); (ch 0 7 (N "member_dot" [(N "member" [(N "member_dot_arg" [(N "member" [(N "primary" [(N "ident" [(Tok "IDENT" "x")])])]); (Tok "IDENT" "f")])]); (Tok "IDENT" "y")]))])])); (ch 0 8 (N "map_lit" [(N "mapinits" [(ch 0 8 (N "literal" [(Tok "STRING_LIT" "'k'")])); (ch 0 7 (N "member_dot_arg" [(N "member" [(N "member_index" [(N "member" [(N "member_dot" [(N "member" [(N "primary" [(N "ident" [(Tok "IDENT" "inputs")])])]); (Tok "IDENT" "l")])]); (ch 0 3 (N "addition" [(N "addition_sub" [(ch 4 8 (N "ident_arg" [(Tok "IDENT" "size"); (N "exprlist" [(ch 0 7 (N "member_dot" [(N "member" [(N "primary" [(N "ident" [(Tok "IDENT" "inputs")])])]); (Tok "IDENT" "l")]))])]))]); (ch 5 8 (N "literal" [(Tok "INT_LIT" "1")]))]))])]); (Tok "IDENT" "map"); (N "exprlist" [(ch 0 8 (N "ident" [(Tok "IDENT" "i")])); (ch 0 3 (N "addition" [(N "addition_add" [(ch 4 8 (N "ident" [(Tok "IDENT" "i")]))]); (ch 5 7 (N "member_dot" [(N "member" [(N "member_dot" [(N "member" [(N "primary" [(N "ident" [(Tok "IDENT" "steps")])])]); (Tok "IDENT" "d_2")])]); (Tok "IDENT" "n")]))]))])]))])]))]).
+
+Tactic Notation "go" integer(i) := eapply occ_child; [do i right; left; reflexivity|].
+
+Example C14_nonvacuous_tree :
+  cel_expr_wf ex_tree = true /\
+  occurs_steps_ref "aaa" ex_tree /\ occurs_steps_ref "bbb" ex_tree /\ occurs_steps_ref "d_2" ex_tree /\
+  extract ex_tree = Done ["steps.aaa.b"; "steps.aaa"; "steps.bbb"; "inputs.l"; "inputs.l"; "steps.d_2.n"; "steps.d_2"] /\
+  needed_steps ["steps.aaa.b"; "steps.aaa"; "steps.bbb"; "inputs.l"; "inputs.l"; "steps.d_2.n"; "steps.d_2"] =
+    [Some "aaa"; Some "aaa"; Some "bbb"; Some "d_2"; Some "d_2"].
+Proof.
+  split; [vm_compute; reflexivity|]. split; [|split; [|split]].
+  - unfold ex_tree. go 0. go 0. go 0. go 0. go 0. go 0. go 0. go 0. go 0. go 1. go 0. go 0. go 0. go 0. go 0. go 0. go 0. go 0. go 0. go 0. go 0. apply occ_here. constructor.
+  - unfold ex_tree. go 1. go 0. go 0. go 0. go 0. go 0. go 0. go 0. go 0. go 0. go 0. go 0. go 0. go 0. go 0. go 0. go 0. go 0. go 0. apply occ_here.
+    apply (dr_index "bbb" "'"%char (quote1 "'"%char) "STRING_LIT");
+      [now left|left; split; reflexivity|reflexivity|reflexivity].
+  - unfold ex_tree. go 2. go 0. go 0. go 0. go 0. go 0. go 0. go 0. go 0. go 0. go 0. go 1. go 0. go 0. go 0. go 0. go 0. go 0. go 0. go 0. go 2. go 1. go 0. go 0. go 0. go 0. go 1. go 0. go 0. go 0. go 0. go 0. apply occ_here. constructor.
+  - split; vm_compute; reflexivity.
+Qed.
+
+(* non-vacuity at workflow level: step b refers to step a (earlier): ready, dependency
+   recorded, both functions watched; the same reference in step a itself: not ready *)
+Definition ex_ref (name : string) : node :=
+  ch 0 7 (N "member_dot" [N "member" [N "member_dot" [steps_member; Tok "IDENT" name]]; Tok "IDENT" "out"]).
+Definition ex_step (label fn : string) (c : cstat) (inputs : field) : step_spec :=
+  {| st_label := label; st_ref := Some {| rf_kind := "ValueFunction"; rf_name := fn; rf_cache := c |};
+     st_switch := None; st_skip_if := FNone; st_for_each := FENone; st_inputs := inputs; st_state := FNone |}.
+
+Example C14_nonvacuous_workflow :
+  (exists w, prepare_workflow [ex_step "a" "f" CHealthy FNone; ex_step "b" "g" CHealthy (FExpr (ex_ref "a"))] = Done w /\
+             pw_ready w = COk /\ pw_steps w = [SStep "a" []; SStep "b" ["a"; "a"]] /\
+             pw_watched w = [("ValueFunction", "f"); ("ValueFunction", "g")]) /\
+  (exists w, prepare_workflow [ex_step "a" "f" CHealthy (FExpr (ex_ref "a")); ex_step "b" "g" CMissing FNone] = Done w /\
+             pw_ready w = CPermFail /\ started_steps w = [] /\
+             pw_watched w = [("ValueFunction", "f"); ("ValueFunction", "g")]).
+Proof. split; eexists; vm_compute; repeat split; reflexivity. Qed.
+
+Print Assumptions C14_extract_total.
+Print Assumptions C14_steps_ref_found.
+Print Assumptions C14_steps_ref_in_result.
+Print Assumptions C14_label_forms.
+Print Assumptions C14_regex_exact.
+Print Assumptions C14_regex_path.
+Print Assumptions C14_ready_deps_complete_and_earlier.
+Print Assumptions C14_bad_order_rejected.
+Print Assumptions C14_duplicate_label_rejected.
+Print Assumptions C14_not_ready_runs_nothing.
+Print Assumptions C14_prepare_raises_only_type_error.
+Print Assumptions C14_prepare_total_refuted.
+Print Assumptions C14_unknown_label_reported_refuted.
+Print Assumptions C14_watched_complete_workflow.
+Print Assumptions C14_watched_complete_rf.
+Print Assumptions C14_watched_complete_ft.
